@@ -93,7 +93,7 @@ def hide_by_metadata(rng, t: Tree, kinds: typing.Dict[str, str]) -> typing.Set[s
             blocks.append("Path=./%s/%s\nType=X\n" % (d, n))
     for n in dirs:
         # .cap files speak about sub-directories as well as about files
-        if n not in hidden and rng.random() < 0.5:
+        if n not in hidden and rng.random() < 0.8:
             if rng.random() < 0.5:
                 t.file(".cap/" + n, "Type=%s\n" % rng.choice("X-"))
                 hidden.add(n)
@@ -154,19 +154,22 @@ def run_dir(chk: Check, sc: Scratch, idx: int, handler_name: str, handlers: str,
     umn = "UMN" in handlers_text
     n = rng.choice([0, 1, 2, 3, 4, 5, 5, 6, 8, 10, 12])
     sub, kinds = gen_dir(rng, n, allow_gophermap="gophermap.Buck" not in handlers_text)
-    hidden_meta = hide_by_metadata(rng, sub, kinds) if umn and rng.random() < 0.5 else set()
+    # (decided by the case number, not by chance: every other directory has metadata, every fourth keeps it behind links)
+    coin = rng.random()
+    hidden_meta = hide_by_metadata(rng, sub, kinds) if umn and (idx % 2 == 0 or coin < 0.25) else set()
     # (the last two: directories whose own path completes an unanchored alternative of the shipped pattern --
     # '\.ask', '/\.cache' -- so every child selector matches it: such a directory lists nothing)
     depth = rng.choice([b"", b"d", b"d/e", b"d", b"d/e", b"forms.asked/sub", b"x/.cache-2019"])
     patt0 = driver.make_config("/").get("handlers.dir.DirHandler", "ignorepatt")
-    if umn and rng.random() < 0.4:
+    coin2 = rng.random()
+    if umn and (idx % 4 == 0 or coin2 < 0.15):
         # metadata files that are symbolic links to regular files kept elsewhere in the site: same effect
         moved = 0
         for nm in sorted(sub.nodes):
             node = sub.nodes[nm]
             base = nm.rsplit(b"/", 1)[-1]
             if node["kind"] == "file" and (nm in (b".names", b".Links", b".links2", b".zlinks") or nm.startswith(b".cap/")) \
-                    and rng.random() < 0.7:
+                    and rng.random() < 0.9:
                 store = b"zz-meta/m%d" % moved
                 sub.file(store, node["data"])
                 del sub.nodes[nm]
